@@ -6,6 +6,12 @@ TRUST = ("Trusted base: rustc/cargo and the std, futures 0.3.26 and tokio 1.26 l
          "the reference model of documented step semantics (crates/jvrt/src/model.rs) and the oracles. Search, not proof: "
          "the claim is 'held on everything generated', with counts and class histograms in the evidence.")
 CHECKS = {
+ "C01": dict(level="exploration", engine="R", design="6/C01",
+   technique="differential property-based testing: proptest-driven typed chain generator, each chain compiled twice in one binary (through the real proc-macro and as the documented method chain with the same operand text) and run on generated inputs; results, callback traces and event multisets compared",
+   text="2 640 (quick) / 26 400 (thorough) typed chains over Option / Result / iterators / tuples / scalars, program i forced to contain operator spelling i mod 22 under macro name i mod 12, operands in six shapes, `~` at random positions, operator-bearing initial values; each runs on 48-128 inputs incl. None / Err / empty. A macro side that does not compile while the reference does is a violation; a reference side that does not compile is a generator bug (exit 2). One genuine defect found and fixed (initial value with a top-level operator was not parenthesised). Async macros are exercised with sync chains closed by `-> ready`; chains over real futures / streams are not generated."),
+ "C02": dict(level="exploration", engine="R", design="6/C02",
+   technique="differential property-based testing: typed chains with program i forced to contain wrapper operator (i/3) mod 10 in closing mode i mod 3, against the hand-nested method chain `.x(|v| v inner...) rest`",
+   text="Inner chains are generated goal-directed for the closure type each of the ten wrapper operators needs, nesting depth <= 3, empty bodies, inner block captures, explicit `<<<`, implicit close at a step end and at the branch end, operators after `<<<`; all 12 macro names. Open known finding: in try-async macros an error-side wrapper at the start of a step >= 1 whose body begins with a member access does not compile (error type lost by the Ok re-wrap); that class is excluded by construction."),
  "C04": dict(level="exploration", engine="R", design="6/C04",
    technique="property-based testing: exhaustive depth-profile enumeration + proptest-generated grid programs, compiled against the real proc-macros, oracle = reference model of result positions",
    text="Every depth profile with n<=4 branches and d<=3 steps under all eight macro kinds is enumerated and random profiles up to n=12, d=6 are generated; the macro's value is compared position by position with the reference model, with type ascriptions forcing the bare value for one branch. Exploration is the right level: the space of profiles is unbounded but the index arithmetic is exercised completely on the small profiles."),
@@ -29,10 +35,10 @@ CHECKS = {
    text="Laziness (nothing logged before the first poll, nor when dropped unpolled), step-internal concurrency (every active branch reaches its first pending point; an opened branch reaches its next one while siblings are pending), wake-up propagation and completion with the model's value are checked for every generated wake-up order; a hang shows deterministically as 'all gates open, root pending, not notified'. Multi-threaded tokio schedulers are not explored."),
  "C10": dict(level="exploration", engine="R", design="6/C10",
    technique="property-based testing: event multiset and per-branch callback order of generated programs vs the reference model, clone- and drop-counting tokens",
-   text="Every evaluation of a user expression is an event; the multiset of events of a run must equal the model's (exactly once / exactly as often as the method calls it), clone counter 0, no live token after the result is dropped. The same command then runs the library-level half (engine L): generated structures over all 23 operator spellings in which every user expression carries a unique marker; each marker must occur exactly once in the expansion."),
+   text="Every evaluation of a user expression is an event; the multiset of events of a run must equal the model's (exactly once / exactly as often as the method calls it), clone counter 0, no live token after the result is dropped. Stage 2 (typed chains against the documented chain): iterator callbacks per element, fold / try_fold operands, clone- and drop-counted `Ck` values - equal event multisets, equal clone counts, nothing left alive. Stage 3 (library level, engine L): generated structures over all 23 operator spellings in which every user expression carries a unique marker; each marker must occur exactly once in the expansion."),
  "C11": dict(level="exploration", engine="R", design="6/C11",
    technique="property-based testing: ordering invariant over the event log of generated programs with block operands on every hoistable grid position",
-   text="Capture phase of every executed step must be exactly the model's sequence (branch-then-position), after all earlier-step events and before all other events of its own step, also for captures inside nested wrappers and in thread/task-spawning macros."),
+   text="Capture phase of every executed step must be exactly the model's sequence (branch-then-position), after all earlier-step events and before all other events of its own step, also for captures inside nested wrappers and in thread/task-spawning macros. Stage 2 (typed chains): block operands on all 14 expression-operand operators incl. both operands of `^@` / `?^@`; per branch the captures must be evaluated once each in written order."),
  "C12": dict(level="exploration", engine="R", design="6/C12",
    technique="property-based testing: snapshots of let-names taken inside generated block captures vs the reference model; result compared with the name-free model",
    text="Random subsets of branches are named, captures of later steps snapshot random names (also of finished branches); every snapshot must equal the named branch's latest step result and the macro's value must be what the model (which ignores names) predicts."),
